@@ -94,6 +94,16 @@ impl EvLog {
         n
     }
 
+    /// Appends the events recorded by another (private) log as one contiguous block.
+    pub fn append_block(&self, other: &EvLog) {
+        let lines = other.lock().current.clone();
+        let mut g = self.lock();
+        for l in lines {
+            let _ = writeln!(g.out, "{}", l);
+            g.lines += 1;
+        }
+    }
+
     pub fn lines(&self) -> u64 {
         self.lock().lines
     }
